@@ -489,6 +489,62 @@ let id_shadow2 st env : item list * env =
   let fv = mkv ~fcost:30 ~firstclass:true ~fvars:[false] f t1 BFunc env.lvl in
   ([IFunc fd; let_ res (call f [lit st]); pr (ev res)], bindv (bind env fv) res TInt BLet)
 
+(* A name of an OUTER function (a nested function h, or a variable) captured by a closure f two or
+   three function levels further in, while the intermediate function declares its own h — before f,
+   or after f (then f must keep the outer one; the intermediate h may be a function or a let; when f
+   is a named function a non-function item separates it from the later function, because adjacent
+   nested functions are mutually visible in Never).  The closure is called in place or escapes
+   from both enclosing calls first.  Compiles on the pinned tree because the captured binding
+   belongs to an enclosing function, not to the one that re-binds the name. *)
+let id_shadow3 st env : item list * env =
+  let outer = fresh st and h = fresh st and p = fresh st and mid = fresh st and g = fresh st in
+  let f = fresh st and z = fresh st and three = fresh st and res = fresh st and mid2 = fresh st and k = fresh st in
+  flag st "shadow_probe3"; flag st "closure_escape";
+  st.shadowing <- st.shadowing + 1;
+  let cap_is_func = Rng.pct st.rng 75 in
+  let where = Rng.weighted st.rng [60, `After; 25, `Before; 15, `None] in
+  let late_is_func = Rng.pct st.rng 65 in
+  let f_is_lambda = Rng.pct st.rng 60 in
+  let escape = Rng.pct st.rng 35 in
+  let four = Rng.pct st.rng 35 in
+  let use_outer = if cap_is_func then call h [] else ev h in
+  let own_def v = if late_is_func then IFunc (fdef h [] TInt [IExpr (ei v)]) else let_ h (ei v) in
+  let use_own = if late_is_func then call h [] else ev h in
+  (* with the own h declared BEFORE f, f lexically sees that one (and must use it at its kind) *)
+  let use_in_f = match where with `Before -> use_own | _ -> use_outer in
+  let fbody = [IExpr (bin Add (bin Mul (use_in_f) (ei 7)) (if four then ev k else ei 0))] in
+  let fdef_items =
+    if f_is_lambda then [let_ f (lam st [] TInt fbody)]
+    else [IFunc (fdef f [] TInt fbody); let_ z (lit st)] in          (* separator after a named f *)
+  let own_v = 200 + Rng.int st.rng 50 in
+  let core_items =
+    (match where with `Before -> [own_def own_v; pr (ei (next_tag ()))] | _ -> [])
+    @ fdef_items
+    @ (if Rng.bool st.rng then [pr (ECall (ev f, []))] else [])
+    @ (match where with `After -> [own_def own_v] | _ -> []) in
+  let result_int = bin Add (bin Mul (ECall (ev f, [])) (ei 1000)) (match where with `None -> use_outer | _ -> use_own) in
+  let t0 = TFun ([], TInt) in
+  let rty = if escape then t0 else TInt in
+  let core = core_items @ [IExpr (if escape then ev f else result_int)] in
+  let gty = if Rng.bool st.rng then t0 else TInt in
+  let mid_body =
+    if four then [IFunc (fdef mid2 [(k, false, TInt)] rty core); IExpr (call mid2 [lit st])]
+    else core in
+  let mid_fd = fdef mid [(g, false, gty)] rty mid_body in
+  let garg = match gty with TInt -> lit st | _ -> ev three in
+  let outer_body =
+    [(if cap_is_func then IFunc (fdef h [] TInt [IExpr (bin Add (ei 1) (ev p))]) else let_ h (bin Add (ei 1) (ev p)));
+     IFunc (fdef three [] TInt [IExpr (ei 3)]);
+     IFunc mid_fd;
+     IExpr (call mid [garg])] in
+  let ofd = fdef outer [(p, false, TInt)] rty outer_body in
+  let ov = mkv ~fcost:40 ~fvars:[false] outer (TFun ([TInt], rty)) BFunc env.lvl in
+  if escape then
+    ([IFunc ofd; let_ res (call outer [lit st]); pr (ECall (ev res, [])); pr (ECall (call outer [lit st], []))],
+     bindv (bind env ov) res t0 BLet)
+  else
+    ([IFunc ofd; let_ res (call outer [lit st]); pr (ev res)], bindv (bind env ov) res TInt BLet)
+
 (* ---- aggregates ------------------------------------------------------------------------------------- *)
 let id_agg st env : item list * env =
   flag st "agg_probe";
@@ -566,7 +622,7 @@ let id_agg st env : item list * env =
 let id_tail st env : item list * env =
   let env_top = { env with vars = List.filter (fun (v : vinfo) -> v.lvl = 0 && v.vb = BFunc) env.vars; lvl = 0;
                             block = List.map (fun v -> v.vn) env.vars @ List.map (fun fd -> int_of_n (fd_name fd)) st.top;
-                            forbid = Uniq.IS.empty } in
+                            forbid = Uniq.IS.empty; sib = Uniq.IS.empty } in
   let fd, v = gen_named_func ~toplevel:true ~kind:`Tail st env_top 2 in
   let env = add_top st env fd v in
   let res = fresh st in
@@ -617,4 +673,4 @@ let id_pipe st env : item list * env =
 
 let all = [ "id_pipe", id_pipe; "id_order", id_order; "id_alias", id_alias; "id_counter", id_counter; "id_adder", id_adder;
             "id_loopcap", id_loopcap; "id_reccap", id_reccap; "id_compose", id_compose; "id_deepcap", id_deepcap; "id_catch", id_catch;
-            "id_shadow", id_shadow; "id_shadow2", id_shadow2; "id_agg", id_agg; "id_tail", id_tail; "id_mutual", id_mutual ]
+            "id_shadow", id_shadow; "id_shadow2", id_shadow2; "id_shadow3", id_shadow3; "id_agg", id_agg; "id_tail", id_tail; "id_mutual", id_mutual ]
